@@ -168,7 +168,7 @@ def replay_dir(pid):
 
 
 def fresh_workdir(name):
-    d = os.path.join(WORK, "%s.%d" % (name, os.getpid()))
+    d = os.path.join(WORK, "%s.%07d" % (name, os.getpid()))   # fixed length: the length of a scratch path ends up in logs and buffer boundaries
     shutil.rmtree(d, ignore_errors=True)
     os.makedirs(d)
     return d
